@@ -19,7 +19,7 @@ RULE = ('full product: chain length 5..60 (quick) / 5..500 (thorough) x configur
         'entry 0, import restores value / fluctuations / configuration list, jackknife variance = squared S=0 error = '
         'var/n from the samples.  Bootstrap: lengths 5..12 x sample counts {1, n-1, n, n+3, 50} x tables {all 126 multisets of '
         'size 5 (n=5, one sample; exhaustive), constant rows, cyclic shifts, identity-like, seeded default}: rows = means '
-        'over the listed configurations; reproducible (also across interpreter hash seeds), chain-consistent, import restores '
+        'over the listed configurations; reproducible (also across interpreter hash seeds and across a sequence of exports of equally named chains of different length), seeded by the md5 hash of the chain name, chain-consistent, import restores '
         'the samples when the table has full column rank, fewer samples than configurations and multi-chain observables are '
         'refused.  Non-trivial = everything except constant data')
 ASSUMPTIONS = ['import after export is compared to rtol 1e-12 (jackknife) / 1e-9 x condition number (bootstrap least squares)']
@@ -200,6 +200,21 @@ def run_case(case):
                         acc.fail('bootstrap:chain-inconsistent', sub, 'boot(a)+boot(b) != boot(a+b) on chain %s' % name)
                     else:
                         acc.ok(('seed', n, ns, name), True, 'bootstrap-default')
+        # documented seeding rule: the default table is drawn from numpy's default_rng seeded with the md5 hash of the
+        # chain name; it depends on nothing else (not on earlier exports, not on the observable, not on the ensemble only)
+        import hashlib
+        seq = [('A|r1', 7, 6), ('A|r1', 12, 6), ('A|r1', 9, 6), ('A|r2', 12, 6), ('A|r1', 12, 6), ('ens_B', 9, 4), ('ens_B', 5, 4), ('A|r1', 7, 6)]
+        for step, (name, n, ns) in enumerate(seq):
+            o, x, _ = mk(pe, n, 'contiguous', 'white', ('seq', step), name)
+            b = o.export_bootstrap(ns)
+            seed = int(hashlib.md5(name.encode()).hexdigest(), 16) & 0xFFFFFFFF
+            tab = np.random.default_rng(seed).integers(0, n, size=(ns, n))
+            exp = np.array([o.value] + [math.fsum(x[i] for i in row) / n for row in tab])
+            if b.shape != exp.shape or not np.all(np.abs(b - exp) <= 1e-13 * np.max(np.abs(x))):
+                acc.fail('bootstrap:default-seeding-rule', dict(case, step=step, name=name, n=n, ns=ns),
+                         'export #%d in this process (chain %s, %d configurations, %d samples) does not use the table seeded by the chain name alone' % (step, name, n, ns))
+                break
+            acc.ok(('seq', step), True, 'bootstrap-seeding-sequence')
         # other chain name -> (generically) another table; other interpreter hash seed -> the same table
         o, x, _ = mk(pe, 9, 'contiguous', 'white', 'xp', 'A|r1')
         mine = o.export_bootstrap(6).tolist()
